@@ -179,14 +179,16 @@ St(env, sig, fuel) == [env |-> env, sig |-> sig, fuel |-> fuel]
 EvalIn(e, env) == IF Racy(e) \/ ~WellTyped(e, DOMAIN env) THEN R(Undef, env) ELSE Eval(e, env)
 Declare(env, name, v) == [x \in DOMAIN env \cup {name} |-> IF x = name THEN v ELSE env[x]]
 
-RECURSIVE Exec(_, _), ExecList(_, _), Loop(_, _, _, _, _), DeclVars(_, _, _), SwitchFrom(_, _, _)
+RECURSIVE Exec(_, _), ExecList(_, _), Loop(_, _, _, _, _), DeclVars(_, _, _, _), SwitchFrom(_, _, _)
 ExecList(body, st) == IF body = <<>> \/ st.sig # "go" THEN st ELSE ExecList(Tail(body), Exec(body[1], st))
-DeclVars(vs, k, st) ==
+DeclVars(vs, k, ty, st) ==
   IF k > Len(vs) \/ st.sig # "go" THEN st
-  ELSE IF vs[k].init = NoExpr THEN DeclVars(vs, k + 1, St(Declare(st.env, vs[k].name, 0), "go", st.fuel))  \* reported only if assigned later
+  ELSE IF vs[k].init = NoExpr THEN DeclVars(vs, k + 1, ty, St(Declare(st.env, vs[k].name, 0), "go", st.fuel))  \* reported only if assigned later
   ELSE LET r == EvalIn(vs[k].init, st.env) IN
        IF r.v = Undef THEN St(st.env, "undef", st.fuel)
-       ELSE DeclVars(vs, k + 1, St(Declare(r.env, vs[k].name, r.v), "go", st.fuel))
+       ELSE LET v == IF vs[k].name[1] = "*" THEN r.v ELSE Chk(ConvertTo(ty, r.v)) IN   \* the declared type converts the value
+            IF v = Undef THEN St(st.env, "undef", st.fuel)
+            ELSE DeclVars(vs, k + 1, ty, St(Declare(r.env, vs[k].name, v), "go", st.fuel))
 \* kind: "while" (test first), "do" (body first).  upd = NoExpr or the for-update
 Loop(kind, c, upd, body, st) ==
   IF st.sig # "go" THEN st
@@ -210,7 +212,7 @@ SwitchFrom(body, k, st) == ExecList(SubSeq(body, k, Len(body)), st)
 Exec(x, st) ==
   IF st.sig # "go" THEN st ELSE
   CASE x.s = "expr" -> LET r == EvalIn(x.e, st.env) IN IF r.v = Undef THEN St(st.env, "undef", st.fuel) ELSE St(r.env, "go", st.fuel)
-    [] x.s = "decl" -> DeclVars(x.vars, 1, st)
+    [] x.s = "decl" -> DeclVars(x.vars, 1, x.ty, st)
     [] x.s \in {"empty", "case", "default"} -> st
     [] x.s = "return" -> St(st.env, "return", st.fuel)
     [] x.s = "break" -> St(st.env, "break", st.fuel)
